@@ -71,6 +71,15 @@ fn stream_decompress(c: Compression, z: &[u8], bufsize: usize) -> Result<Vec<u8>
     loop { let n = rd.read(&mut buf).map_err(|e| format!("read: {e}"))?; if n == 0 { break; } out.extend_from_slice(&buf[..n]); }
     Ok(out)
 }
+/// a source that hands out `k` bytes per read call
+struct Drip<'a> { d: &'a [u8], at: usize, k: usize }
+impl<'a> Read for Drip<'a> { fn read(&mut self, b: &mut [u8]) -> std::io::Result<usize> { let c = self.k.min(b.len()).min(self.d.len() - self.at); b[..c].copy_from_slice(&self.d[self.at..self.at + c]); self.at += c; Ok(c) } }
+fn drip_decompress(c: Compression, z: &[u8], k: usize) -> Result<Vec<u8>, String> {
+    let mut src = Drip { d: z, at: 0, k };
+    let mut rd = decompress(c, &mut src).map_err(|e| format!("decompress: {e}"))?;
+    let mut out = Vec::new(); rd.read_to_end(&mut out).map_err(|e| format!("read_to_end: {e}"))?;
+    Ok(out)
+}
 fn async_compress(c: Compression, d: &[u8], sched: &[usize]) -> Result<Vec<u8>, String> {
     block_on(async {
         let mut out = futures::io::Cursor::new(Vec::new());
@@ -158,6 +167,11 @@ pub fn c14() -> Result<u64, String> {
                 if b2 != d { return Err(format!("streaming decompress with {bs}-byte reads returns other bytes ({what}): {} bytes back", b2.len())); }
                 n += 1;
             }
+            if d.len() <= 200_000 { for k in [1usize, 2, 3, 5] {
+                let b6 = drip_decompress(c, &z, k).map_err(|e| format!("reader adapter over a source that delivers {k} byte(s) per read ({what}): {e}"))?;
+                if b6 != d { return Err(format!("reader adapter over a source that delivers {k} byte(s) per read returns other bytes ({what})")); }
+                n += 1;
+            } }
             // async adapters, and sync <-> async cross decoding
             let ascheds = if big { vec![vec![65_536usize]] } else { vec![vec![4096usize], vec![1, 50, 0, 7000]] };
             for sched in &ascheds {
